@@ -329,10 +329,21 @@ def _run_ext_in(case, work):
                          f"H 0.0 0.0 0.0 0.0 0.0 0.0\nH {d0!r} 0.0 0.0 {v0!r} 0.0 0.0\n")
         nfr = len(frames)
 
+        torn = int(case.get("torn", 0))
+
+        def cut(key, v):
+            """bytes visible when v complete frames are: with `torn`, the flush ended in the middle of a LINE of frame
+            v (≥ 1 complete frame before it) — the model and the predicates still count complete frames only"""
+            v = min(v, nfr)
+            b = cuts[key][v]
+            if torn and 0 < v < nfr:
+                b += max(1, min(torn, cuts[key][v + 1] - cuts[key][v] - 2))
+            return b
+
         def bytes_of(w):
             if eng_name == "lammps":
-                return {"traj": cuts["traj"][min(w["vis"], nfr)]}
-            return {"pos": cuts["pos"][min(w["vis"], nfr)], "vel": cuts["vel"][min(w["vis2"], nfr)]}
+                return {"traj": cut("traj", w["vis"])}
+            return {"pos": cut("pos", w["vis"]), "vel": cut("vel", w["vis2"])}
 
         def conv(lst):
             return [dict(file=bool(f), bytes=bytes_of(dict(vis=int(v), vis2=int(v2))), alive=bool(a),
@@ -742,6 +753,11 @@ def run_seq(case):
         for i, st in enumerate(case["steps"]):
             if st.get("from") is not None:
                 j, fi = st["from"]
+                if fi >= len(done[j]["config"]):
+                    # the source path is shorter than its length limit although nothing can be outside (±1e9): reported
+                    # by check_seq_property through the lengths recorded below; the rest of the sequence cannot be run
+                    obs["cut_short_at"] = i
+                    break
                 cfg = tuple(done[j]["config"][fi])
                 vel_rev0 = done[j]["vel_rev"]
             else:
@@ -810,6 +826,14 @@ def check_seq_property(ctx, case, obs):
         ctx.fail(f"C12:{eng}:earlier-path-changed", "a path returned by an earlier propagate changed when the engine was used again", rep)
     for i, st in enumerate(obs.get("steps", [])):
         a, b = st["long"], st["fresh"]
+        ml = case["steps"][i]["maxlen"]
+        for which, r in (("long-lived", a), ("fresh", b)):
+            if len(r["order"]) != ml:
+                # interfaces at ±1e9: nothing is ever outside, every propagation must end AT its length limit
+                ctx.fail(f"C12:{eng}:{'stopped-before-limit' if len(r['order']) < ml else 'longer-than-maxlen'}",
+                         f"propagation #{i} of the sequence ({which} engine object): {len(r['order'])} frames, no frame can be "
+                         f"outside (interfaces ±1e9), length limit {ml}", {**rep, "step": i, which: r})
+                return
         if a != b:
             what = [q for q in ("order", "ekin", "vpot") if a[q] != b[q]]
             dev = 0.0
@@ -1253,6 +1277,48 @@ def outside(x, left, right):
     return x < left or x > right
 
 
+def check_stop_rule(ctx, eng, case, obs, rep, stream, endless):
+    """The clause "stops at the first frame outside the interfaces or at the length limit and reports success only in the
+    former case", judged on the real output against the orders `stream` the dynamics / the program delivers (computed by
+    the harness, no model): path length = min(first outside index + 1, maxlen[, frames available]); success ⇔ the last
+    frame is outside; the status text names the interface crossed / says that the limit was hit.
+    endless: the source never runs dry before maxlen frames (in-process dynamics); otherwise `stream` is everything
+    the program wrote and the program ended by itself with exit code 0 or was stopped by the engine."""
+    if obs.get("raised") != "ok":
+        return
+    left, right, maxlen = case["left"], case["right"], case["maxlen"]
+    path = obs.get("path", [])
+    fo = next((k for k, x in enumerate(stream) if outside(x, left, right)), None)
+    want = maxlen if fo is None else min(fo + 1, maxlen)
+    if not endless:
+        want = min(want, len(stream))
+    elif len(stream) < want:
+        return
+    if len(path) != want:
+        sig = "stopped-before-limit" if len(path) < want else "longer-than-maxlen"
+        ctx.fail(f"C12:{eng}:{sig}", f"{len(path)} frames returned; first outside frame index {fo}, length limit {maxlen}: "
+                                     f"{want} frames expected (orders delivered: {stream[:want + 1]})", rep)
+        return
+    if want == 0:
+        return
+    last_out = outside(stream[want - 1], left, right)
+    if bool(obs.get("success")) != last_out:
+        ctx.fail(f"C12:{eng}:{'crossing-not-reported' if last_out else 'success-without-crossing'}",
+                 f"success={obs.get('success')} but the last frame (index {want - 1}, order {stream[want - 1]}) is "
+                 f"{'outside' if last_out else 'inside'} ({left}, {right})", rep)
+        return
+    st = obs.get("status")
+    if last_out:
+        ok = st == ("left" if stream[want - 1] < left else "right")
+    elif want == maxlen:
+        ok = st == "maxlen"
+    else:
+        ok = st in ("running", "init")          # the program ended by itself inside the interfaces, below the limit
+    if not ok:
+        ctx.fail(f"C12:{eng}:status-text-wrong", f"status {st!r} for a path of {want} frames (limit {maxlen}) whose last frame is "
+                                                 f"{'outside' if last_out else 'inside'}", rep)
+
+
 def _check_purity(ctx, eng, obs, rep):
     if obs.get("ens_changed"):
         ctx.fail(f"C12:{eng}:input-modified", f"propagate changed the ensemble settings it was given: {obs['ens_changed'][:300]}", rep)
@@ -1333,6 +1399,9 @@ def check_ext_property(ctx, case, obs):
                                                            f"{case.get('energy_rc', 0)}: propagate returned normally", rep)
         if case.get("grompp_rc") and obs.get("proc") != "never-started":
             ctx.fail(f"C12:{eng}:started-after-failed-grompp", f"mdrun state after propagate: {obs.get('proc')}", rep)
+    if not (case.get("grompp_rc") or case.get("energy_rc")):
+        L0 = case.get("start", frames[0] if frames else (1.0, 16.0, 0.0))[1]
+        check_stop_rule(ctx, eng, case, obs, rep, [pbc(d, L0 if eng == "cp2k" else L) for (d, L, vx) in frames], endless=False)
     _check_purity(ctx, eng, obs, rep)
     # (c) program stopped when propagate returns/raises
     if obs.get("proc") == "orphan":
@@ -1494,6 +1563,29 @@ def gen_ext_cases(ctx):
             c2 = one(rng.randint(1, 4))
             c2["prelude"] = one(rng.randint(1, 5))
             cases.append(c2)
+    # F. length limits exactly around the first outside frame: index ∈ {maxlen−2, maxlen−1, maxlen, none}, subcycles 1–3,
+    #    all frames at once / one per sleep
+    for eng in ("lammps", "cp2k"):
+        for sub in (1, 2, 3):
+            for ml in (2, 3, 5):
+                for fo in (ml - 2, ml - 1, ml, None):
+                    n = ml + 1
+                    fr = [(9.0 if k == fo else 1.0 + 0.25 * k, 30.0, float(k % 3 - 1)) for k in range(n)]
+                    for shape in ("burst", "drip"):
+                        arr = [0] * n if shape == "burst" else list(range(n))
+                        x = (arr[-1] + 2)
+                        cases.append(dict(engine=eng, frames=fr, coarse=sched_from_times(0, arr, x, arr), code=0, maxlen=ml,
+                                          left=0.5, right=8.0, rev=(sub + ml) % 2, vel_rev0=bool(ml % 2), sub=sub, tag="limit-exh"))
+    # G. a flush of the program's buffer ends in the middle of a line, with ≥ 1 complete frame before it, between two
+    #    polls: every complete frame must be delivered exactly once (C13 proves the reader; here the whole engine loop)
+    for eng in ("lammps", "cp2k"):
+        for n in (2, 3, 4):
+            for torn in (1, 5, 20, 60):
+                for shape in ("drip", "pairs"):
+                    arr = list(range(n)) if shape == "drip" else [2 * (k // 2) for k in range(n)]
+                    fr = [(1.0 + 0.5 * k if k < n - 1 else (9.0 if torn % 2 else 2.0), 30.0, float(k + 1)) for k in range(n)]
+                    cases.append(dict(engine=eng, frames=fr, coarse=sched_from_times(0, arr, arr[-1] + 3, arr), code=0, maxlen=n + 1,
+                                      left=0.5, right=8.0, rev=n % 2, vel_rev0=False, sub=1, torn=torn, tag="torn-flush"))
     for c in cases:
         for cc in (c, c.get("prelude")):
             if cc is None:
@@ -1583,6 +1675,17 @@ def gen_gmx_cases(ctx):
         c2["prelude"] = one(rng.randint(1, 6))
         c2["prelude"]["natoms"] = c2["natoms"]
         cases.append(c2)
+    # length limits exactly around the first outside frame: index ∈ {maxlen−2, maxlen−1, maxlen, none}, subcycles 1–3
+    for sub in (1, 2, 3):
+        for ml in (2, 3, 5):
+            for fo in (ml - 2, ml - 1, ml, None):
+                n = ml + 1
+                fr = [(9.0 if k == fo else 1.0 + 0.25 * k, 32.0, float(k % 3 - 1)) for k in range(n)]
+                for shape in ("burst", "drip"):
+                    arr = [0] * n if shape == "burst" else [2 * k for k in range(n)]
+                    cases.append(dict(engine="gromacs", frames=fr, sched=sched_from_times(0, arr, arr[-1] + 3), code=0, maxlen=ml,
+                                      left=0.5, right=8.0, rev=(sub + ml) % 2, vel_rev0=bool(ml % 2), sub=sub, natoms=40,
+                                      double=bool(sub % 2), tag="gmx-limit-exh"))
     # the one-shot tools around mdrun fail (`gmx grompp` before, `gmx energy` after): execute_command must raise, and
     # mdrun must not be started (grompp) / must have been stopped (energy)
     for j, (grc, erc) in enumerate(((1, 0), (-11, 0), (0, 1), (0, 2), (0, -9), (3, 1)) if ctx.quick else
@@ -1656,6 +1759,14 @@ def gen_inproc_cases(ctx):
         # periodic wrap of the order parameter in a small box
         cases.append(dict(engine=eng, d0=2.0, v0=1.0, L=8.0, sub=1, maxlen=9, left=0.375, right=3.625, rev=0, vel_rev0=False,
                           k=0.0, retrace=False, tag="free-pbc"))
+        # length limits exactly around the first outside frame: index ∈ {maxlen−2, maxlen−1, maxlen, none}, subcycles 1–3
+        for sub in (1, 2, 3):
+            for ml in (2, 3, 5):
+                for fo in (ml - 2, ml - 1, ml, None):
+                    # frames at 4 + k·sub·0.25; the right interface lies 1/8 below frame `fo`
+                    right = 30.0 if fo is None else 4.0 + fo * sub * 0.25 - 0.125
+                    cases.append(dict(engine=eng, d0=4.0, v0=0.5, L=64.0, sub=sub, maxlen=ml, left=0.125, right=right, rev=0,
+                                      vel_rev0=False, k=0.0, retrace=False, tag="free-limit-exh"))
     # ASE with a harmonic calculator: no model comparison (not dyadic), property predicate + retracing only
     for sub in (1, 2, 3):
         for rev in (0, 1):
@@ -1687,6 +1798,13 @@ def gen_plugin_cases(ctx):
                           script=[rng.choice(LEVELS + (0.0,)) for _ in range(n)], sub=sub,
                           maxlen=rng.randint(1, 5), left=rng.choice((0.5, 0.0)), right=8.0, rev=rng.choice((0, 1)),
                           vel_rev0=rng.choice((False, True)), start_idx=rng.choice((0, 1)), tag="plugin-sub"))
+    # length limits exactly around the first outside sample: index ∈ {maxlen−2, maxlen−1, maxlen, none}, subcycles 1–3
+    for sub in (1, 2, 3):
+        for ml in (2, 3, 5):
+            for fo in (ml - 2, ml - 1, ml, None):
+                full = [9.0 if (k % sub == 0 and k // sub == fo) else 2.0 for k in range((ml + 1) * sub + 1)]
+                cases.append(dict(engine="plugin", d0=full[0], v0=1.0, script=full[1:], sub=sub, maxlen=ml, left=0.5, right=8.0,
+                                  rev=0, vel_rev0=False, start_idx=0, tag="plugin-limit-exh"))
     # the other two branches of dump_config: config = (file, None) → copy; … and the file already is the target → nothing
     for rev in (0, 1):
         for vr0 in (False, True):
@@ -1778,6 +1896,18 @@ def check_inproc_property(ctx, case, obs):
     rep = {"case": case, "observed": obs}
     exact = case.get("tag") != "harmonic"
     check_path_rules(ctx, eng, case, obs, rep, tol=0.0 if exact and eng == "ase" else 1e-6)
+    if exact:
+        flip = -1.0 if bool(case["rev"]) != bool(case.get("vel_rev0", False)) else 1.0
+        stream = [pbc(case["d0"] + k * case["sub"] * 0.5 * flip * case["v0"], case["L"]) for k in range(case["maxlen"] + 1)]
+        check_stop_rule(ctx, eng, case, obs, rep, stream, endless=True)
+    elif obs.get("raised") == "ok":
+        # any dynamics: an in-process engine never runs out of frames — it ends outside the interfaces or AT the limit
+        ords = [e["order"][0] for e in obs.get("path", [])]
+        if not (ords and outside(ords[-1], case["left"], case["right"])) and len(ords) != case["maxlen"]:
+            ctx.fail(f"C12:{eng}:stopped-before-limit", f"{len(ords)} frames, all inside, length limit {case['maxlen']}", rep)
+        elif ords and len(ords) == case["maxlen"] and not outside(ords[-1], case["left"], case["right"]) \
+                and obs.get("status") != "maxlen":
+            ctx.fail(f"C12:{eng}:status-text-wrong", f"limit hit, status {obs.get('status')!r}", rep)
     if obs.get("path"):
         r0 = obs["recomputed"][0] if obs.get("recomputed") else None
         flip0 = -1.0 if bool(case["rev"]) != bool(case.get("vel_rev0", False)) else 1.0
@@ -2217,6 +2347,8 @@ def _run(ctx):
         ctx.count(1, engine="plugin")
         rep = {"case": case, "observed": obs}
         guarded(ctx, "plugin", case, check_path_rules, ctx, "plugin", case, obs, rep)
+        guarded(ctx, "plugin", case, check_stop_rule, ctx, "plugin", case, obs, rep,
+                ([case["d0"]] + list(case["script"]))[::case["sub"]], False)
         ords = [scs(e["order"][0]) for e in obs.get("path", [])]
         if ords:
             ctx.distinct(("plugin", case["d0"], tuple(case["script"]), case["sub"], case["maxlen"]))
@@ -2309,7 +2441,8 @@ def _run(ctx):
         "order values, interfaces and velocities are dyadic (multiples of 1/4 or 1/8): float comparisons are exact",
         "the MD programs are stand-ins that write what the schedule says; frame 0 of their output is the start point",
         "output/exit events of the external program happen at the engine's sleep()/poll() calls (every observable "
-        "interleaving of one poll/one read is reachable this way); torn frames are C13's subject and not generated here",
+        "interleaving of one poll/one read is reachable this way); torn frames are C13's subject — here only the class "
+        "'torn-flush' (LAMMPS, CP2K): a flush ending in the middle of a line after ≥ 1 complete frame, model fed complete frames",
         "'the external program' is the whole process group/session the engine creates (launcher + MD executable): checked "
         "with a launcher-mode fake gmx (bounded wait of 2 s for the group to vanish); LAMMPS/CP2K fakes are single processes",
         "in-process engines: the path is a function of the input phase point — checked by running sequences of propagations "
